@@ -1,5 +1,145 @@
-(* C14 — placeholder, replaced below in this session *)
-From Coq Require Import List ZArith Bool.
-From FB Require Import Lib.Sexp Model.EsClient Judge.E7.
+(* C14 — Elasticsearch sink answers every index request exactly once, within its bounds.
+   Only statements, each closed by [exact lemma], Examples / witnesses and Print Assumptions.
+   Model: Model/EsClient.v (retry machine [handle]/[lineage], batcher [bstep], token pool machine [mstep]);
+   statement as a decision procedure on observations: Judge/E7.v [spec_c14] with the closed form [fate]. *)
+From Coq Require Import List ZArith Bool Arith Lia.
+From FB Require Import Lib.Sexp Lib.Eqb Lib.E7Lib Model.EsClient Judge.E7 Proofs.EsProofs.
 Import ListNotations.
-Example C14_placeholder : True. Proof. exact I. Qed.
+Open Scope Z_scope.
+
+(* Every batch (distinct documents), every configuration, every script of per-document outcomes without
+   whole-request errors (late responses allowed: the repaired code ignores lateness, C14_late_harmless): each document
+   of the batch gets exactly ONE answer, namely [fate]'s, and is sent exactly as often as [fate] says; nobody else
+   is answered or sent; the model's fuel suffices.  By induction on the remaining retries. *)
+Theorem C14_answered_once : forall cfg sc b,
+  no_whole sc = true -> NoDup (map d_id b) ->
+  let tr := lineage (fuel_for cfg sc) cfg sc (fresh b) in
+  tr_fuel_out tr = false
+  /\ (forall d, In d b ->
+        answers_of (d_id d) (tr_answers tr) = [fst (fate (max_retries cfg) 0 (outcome_at sc (d_id d)))]
+        /\ (count_calls (d_id d) (tr_calls tr) + 0 = snd (fate (max_retries cfg) 0 (outcome_at sc (d_id d))))%nat)
+  /\ (forall id, ~ In id (map d_id b) -> answers_of id (tr_answers tr) = [] /\ count_calls id (tr_calls tr) = 0%nat).
+Proof. exact batch_answered_once. Qed.
+
+(* the same for a request in the middle of its life: retryCount n, sent n times before *)
+Theorem C14_answered_once_from : forall cfg sc, no_whole sc = true -> forall rem fuel t,
+  (t_n t + rem = max_retries cfg)%nat -> t_send t = t_n t -> (rem < fuel)%nat -> NoDup (map d_id (t_docs t)) ->
+  fate_ok cfg sc rem t (lineage fuel cfg sc t).
+Proof. exact lineage_fate. Qed.
+
+(* ... where [fate] is: sent k - n times, k - n <= remaining retries + 1; every attempt before the last failed
+   retryably; the answer is success iff the last attempt was 2xx; a mapping error is answered with that attempt's
+   error (at whatever attempt it occurs: never re-sent); any other failure at the last attempt means the retries are
+   exhausted (attempt number = bulk-index-max-retries) and the answer carries that attempt's error *)
+Theorem C14_fate_meaning : forall sc, (forall k, is_whole (sc k) = false) -> forall rem n,
+  let a := fst (fate rem n sc) in
+  let k := snd (fate rem n sc) in
+  (n < k <= n + rem + 1)%nat
+  /\ (forall j, (n <= j < k - 1)%nat -> is_retryable (sc j) = true)
+  /\ match sc (k - 1)%nat with
+     | OOk => a = ASuccess
+     | OMapping => a = AIndexErr (Z.of_nat (k - 1)) 2
+     | ORetry => a = AIndexErr (Z.of_nat (k - 1)) 1 /\ (k - 1 = n + rem)%nat
+     | ONoErr => a = AIndexErr (-1) 3 /\ (k - 1 = n + rem)%nat
+     | OWhole => False
+     end.
+Proof. exact fate_spec. Qed.
+
+Theorem C14_late_harmless : forall cfg sc sc' t,
+  (forall id k, outcome_at sc id k = outcome_at sc' id k) -> handle cfg sc t = handle cfg sc' t.
+Proof. exact handle_ignores_late. Qed.
+
+(* every bulk request of every scenario (whole-request errors included) is a sub-list of ONE batch — elements
+   (index, id, body) untouched, order kept —, non-empty and at most batch-size long *)
+Theorem C14_batch_shape : forall cfg sc ops clean c,
+  (1 <= batch_size cfg)%nat ->
+  In c (e_calls (es_run cfg sc ops clean)) ->
+  exists b p, In b (b_batches (bfinish cfg clean (brun cfg ops))) /\ c = filter p b /\ c <> []
+              /\ (length c <= batch_size cfg)%nat.
+Proof. exact run_calls_shape. Qed.
+
+(* token pool, over EVERY interleaving of arrivals, timer, shutdown, acquire / respond / release steps *)
+Theorem C14_pool : forall cfg sc sch s,
+  mrun cfg sc (m_init cfg) sch = Some s ->
+  (in_flight s + m_tokens s = workers cfg)%nat /\ (in_flight s <= workers cfg)%nat.
+Proof. exact pool_bound. Qed.
+
+(* logical timer: when arrivals pause the pending batch is sent as one batch and nothing stays pending; an arrival
+   never sends a partial batch (the timer is re-armed by every arrival), it sends exactly when the batch is full *)
+Theorem C14_idle_flush : forall cfg s,
+  b_pending (bstep cfg s OpPause) = [] /\ b_batches (bstep cfg s OpPause) = b_batches s ++ [b_pending s].
+Proof. exact pause_flushes. Qed.
+
+Theorem C14_arrival : forall cfg s d,
+  (b_batches (bstep cfg s (OpDoc d)) = b_batches s /\ b_pending (bstep cfg s (OpDoc d)) = b_pending s ++ [d]
+   /\ length (b_pending s ++ [d]) <> batch_size cfg)
+  \/ (b_batches (bstep cfg s (OpDoc d)) = b_batches s ++ [b_pending s ++ [d]] /\ b_pending (bstep cfg s (OpDoc d)) = []
+      /\ length (b_pending s ++ [d]) = batch_size cfg).
+Proof. exact arrival_batches. Qed.
+
+(* a wrong-typed payload is answered at once with an error and never enqueued *)
+Theorem C14_wrong_type : forall cfg s id,
+  b_batches (bstep cfg s (OpBad id)) = b_batches s /\ b_pending (bstep cfg s (OpBad id)) = b_pending s
+  /\ b_direct (bstep cfg s (OpBad id)) = b_direct s ++ [(id, AOther)].
+Proof. exact bad_not_enqueued. Qed.
+
+(* ---------- the part of the statement that is FALSE of the current code ---------- *)
+(* the full statement, as the judge evaluates it: on every scenario of the quantifier the model's observation
+   passes every clause *)
+Definition C14_full_statement : Prop :=
+  forall i, in_domain14 i = true -> spec_c14 i (model_eobs i) = [].
+
+Definition shutdown_witness : einput :=
+  {| ei_cfg := {| batch_size := 3; max_retries := 1; workers := 1 |};
+     ei_ops := map (fun k => OpDoc {| d_id := k; d_idx := 0; d_hasid := 1; d_body := k |}) [0; 1; 2; 3];
+     ei_script := []; ei_clean := false |}.
+
+(* Shutdown with a pending batch: request 3 is never sent and never answered (clause 6, detail 1) *)
+Theorem C14_shutdown_refuted :
+  in_domain14 shutdown_witness = true
+  /\ spec_c14 shutdown_witness (model_eobs shutdown_witness) = [clause 14 6 [L 1; L 3]]
+  /\ e_dropped (es_run (ei_cfg shutdown_witness) [] (ei_ops shutdown_witness) false)
+     = [{| d_id := 3; d_idx := 0; d_hasid := 1; d_body := 3 |}].
+Proof. vm_compute. repeat split; reflexivity. Qed.
+
+Theorem C14_full_statement_refuted : ~ C14_full_statement.
+Proof.
+  intros H. specialize (H shutdown_witness). destruct C14_shutdown_refuted as [D [S _]].
+  rewrite S in H. specialize (H D). discriminate.
+Qed.
+
+(* non-vacuity: a scenario with a retry that succeeds, a mapping error, retry exhaustion, a partial batch flushed by
+   the timer and a wrong-typed payload; clean Shutdown: every clause holds *)
+Example C14_scenario_example :
+  let d k := {| d_id := k; d_idx := 1; d_hasid := 0; d_body := 7 |} in
+  let i := {| ei_cfg := {| batch_size := 2; max_retries := 1; workers := 2 |};
+              ei_ops := [OpDoc (d 0); OpDoc (d 1); OpBad 9; OpDoc (d 2); OpPause; OpDoc (d 3)];
+              ei_script := [(0, [(ORetry, false); (OOk, true)]); (1, [(OMapping, false)]);
+                            (2, [(ORetry, false); (ONoErr, false)])];
+              ei_clean := true |} in
+  in_domain14 i = true /\ no_whole (ei_script i) = true /\ spec_c14 i (model_eobs i) = []
+  /\ map (fun id => answers_of id (e_answers (es_run (ei_cfg i) (ei_script i) (ei_ops i) true))) [0; 1; 9; 2; 3]
+     = [[ASuccess]; [AIndexErr 0 2]; [AOther]; [AIndexErr (-1) 3]; [ASuccess]]
+  /\ e_calls (es_run (ei_cfg i) (ei_script i) (ei_ops i) true) = [[d 0; d 1]; [d 0]; [d 2]; [d 2]; [d 3]].
+Proof. vm_compute. repeat split; reflexivity. Qed.
+
+(* a schedule of the pool machine that fills the pool: with 1 worker the second request cannot start *)
+Example C14_pool_example :
+  let cfg := {| batch_size := 1; max_retries := 1; workers := 1 |} in
+  let d k := {| d_id := k; d_idx := 0; d_hasid := 0; d_body := 0 |} in
+  (exists s, mrun cfg [] (m_init cfg) [AOp (OpDoc (d 0)); AOp (OpDoc (d 1)); AAcquire 0] = Some s
+             /\ in_flight s = 1%nat /\ m_tokens s = 0%nat /\ length (m_waiting s) = 1%nat)
+  /\ mrun cfg [] (m_init cfg) [AOp (OpDoc (d 0)); AOp (OpDoc (d 1)); AAcquire 0; AAcquire 0] = None.
+Proof. vm_compute. split; [eexists; repeat split|reflexivity]. Qed.
+
+Print Assumptions C14_answered_once.
+Print Assumptions C14_answered_once_from.
+Print Assumptions C14_fate_meaning.
+Print Assumptions C14_late_harmless.
+Print Assumptions C14_batch_shape.
+Print Assumptions C14_pool.
+Print Assumptions C14_idle_flush.
+Print Assumptions C14_arrival.
+Print Assumptions C14_wrong_type.
+Print Assumptions C14_shutdown_refuted.
+Print Assumptions C14_full_statement_refuted.
